@@ -51,6 +51,7 @@ pub struct SdvStream {
 }
 
 pub struct LazyProv {
+    pub handle: usize,
     rx: std::pin::Pin<Box<dyn futures::Stream<Item = Result<p2::OpenProviderStreamResponse, tonic::Status>> + Send>>,
     inbox: Arc<Mutex<Vec<Vec<(i32, DataValue)>>>>,
 }
@@ -349,7 +350,7 @@ pub async fn step_prov(w: &mut World, op: Tok, c: &mut Cur<'_>) -> Vec<Vec<Tok>>
                         let avail = Arc::new(std::sync::atomic::AtomicBool::new(true));
                         w.provs.push((inbox.clone(), avail));
                         let h = w.provs.len() - 1;
-                        w.lazy.push(LazyProv { rx: st, inbox });
+                        w.lazy.push(LazyProv { handle: h, rx: st, inbox });
                         vec![vec![0, h as Tok]]
                     }
                     _ => vec![vec![-5]],
